@@ -11,6 +11,7 @@ import Rmk.Impl.Store
 import Rmk.Spec.Obj
 import Rmk.Impl.Virtual
 import Rmk.Impl.Heap
+import Rmk.Impl.ByteLength
 import Driver.Sexp
 namespace Driver
 open Rmk
@@ -79,6 +80,7 @@ def runVal (t : Ty) (v : Val) : String :=
     kv "i.bytes" (hexO (ser.map (·.1))),
     kv "i.cnt" (optStr toString (ser.map (·.2))),
     kv "i.read" (optStr valStr (n.bind (Impl.readVal H t))),
+    kv "i.vbl" (optStr toString (n.bind (Impl.valueByteLength H t))),
     kv "i.dec" (optStr (fun (p : Val × List UInt8) => valStr p.1 ++ "/" ++ toString p.2.length) dec),
     kv "s.obj" (if wt then Obj.toJson (Obj.toObj t v) else "-"),
     kv "i.fromobj" (if wt then optStr valStr (Obj.fromObj t (Obj.jsonNorm (Obj.toObj t v))) else "-")]
